@@ -47,6 +47,28 @@ def _sels(rng, size):
             ["frac", rs(rng.choice([Fraction(1, 2), Fraction(9, 10), Fraction(99, 100)]))]]
 
 
+def _nearly_tied(rng, t, ratio):
+    """Four curves ±a f₁ ± b f₂ (+ a small third direction) with f₁, f₂ orthonormal for the trapezoid weights of `t`
+    and b²/a² = ratio: the two leading eigenvalues of the covariance operator (and of the Gram matrix) have that
+    ratio.  Values are ordinary floats (exact dyadic rationals for the model)."""
+    tf = np.array(fl(t))
+    w = trapz_weights(tf)
+    u = (tf - tf[0]) / (tf[-1] - tf[0])
+    f = [np.sin(np.pi * u) + 0.3, np.cos(np.pi * u), u * u - 0.4]
+    q = []
+    for v in f:                                   # Gram–Schmidt for <x,y>_w
+        for p_ in q:
+            v = v - np.sum(w * v * p_) * p_
+        q.append(v / np.sqrt(np.sum(w * v * v)))
+    a = float(rng.choice([1, 2, 5]))
+    b = a * np.sqrt(ratio)
+    c = 0.05 * a
+    signs = [(1, 1, 1), (-1, 1, -1), (1, -1, -1), (-1, -1, 1)]
+    mean = 0.5 + u
+    X = [mean + s1 * a * q[0] + s2 * b * q[1] + s3 * c * q[2] for s1, s2, s3 in signs]
+    return [[F(float(x)) for x in r] for r in X]
+
+
 def gen_cases(rng: Rng, tier):
     N = 1500 if tier == "thorough" else 100
     big = tier == "thorough"
@@ -72,6 +94,15 @@ def gen_cases(rng: Rng, tier):
             XB, _ = curves(rng, nB, tB, rng.choice(["rough", "lowrank", "smooth"]))
             case["B"] = dict(t=Svec(tB), X=Smat(XB))
         yield case
+    # nearly tied leading eigenvalues (every run): λ₂/λ₁ = 0.9 … 0.999 (NOT exactly tied — that is the open finding),
+    # one, two and all components, both routes; iterative shortcuts stall here, LAPACK does not
+    for ratio in (0.9, 0.97, 0.99, 0.999):
+        for method in ("cov", "gram"):
+            for sel in (["int", 1], ["int", 2]) + ((["all"],) if big else ()):
+                m = rng.randint(6, 9)
+                t = grid(rng, m, uniform=rng.random() < 0.5)
+                X = _nearly_tied(rng, t, ratio)
+                yield dict(kind=method, t=Svec(t), X=Smat(X), sel=list(sel), ck=f"nearly-tied-{ratio}", scale="1")
     # amplitude sweep (every run): data × 2^e, e = ±30, ±20 (≈ 1e-9 … 1e9), both routes
     for i, e in enumerate([-30, -30, 30, 30, -20, -20]):
         method = ["cov", "gram"][i % 2]
